@@ -102,6 +102,11 @@ func c20Actions(args []string) error {
 				}
 				if named.ResultName != "" {
 					jobs = append(jobs, job{fmt.Sprintf("%s#%d+preset", strings.TrimPrefix(fn, "/repo/"), i), assetsJSON, tc, isRoute, named.ResultName, false})
+					if !isRoute {
+						// ... and the action twice on the node under two result names, each with a preset of its own category:
+						// what inspection merges for one key must not leak into (or be overwritten by) the other
+						jobs = append(jobs, job{fmt.Sprintf("%s#%d+preset-pair", strings.TrimPrefix(fn, "/repo/"), i), assetsJSON, tc, isRoute, named.ResultName + "\x00pair", false})
+					}
 				}
 			}
 		}
@@ -151,7 +156,17 @@ func c20Actions(args []string) error {
 					flowIndex, flowUUID = 1, assets.FlowUUID("7a84463d-d209-4d3e-a0ff-79f977cd7bd0")
 				}
 				acts := "[" + string(j.tc.Action) + "]"
-				if j.twin != "" {
+				if strings.HasSuffix(j.twin, "\x00pair") {
+					name := strings.TrimSuffix(j.twin, "\x00pair")
+					var second map[string]any
+					json.Unmarshal(j.tc.Action, &second)
+					second["uuid"] = "f01d693b-2af2-49fb-9e38-146eb00937ea"
+					second["result_name"] = name + " Two"
+					p2 := presetAction(name + " Two")
+					p2["uuid"], p2["category"] = "f01d693b-2af2-49fb-9e38-146eb00937eb", "Preset Two"
+					// (the presets come AFTER the actions here, in "+preset" before: the order in which the sources of a key are met differs)
+					acts = "[" + string(j.tc.Action) + "," + string(mustJSON(presetAction(name))) + "," + string(mustJSON(second)) + "," + string(mustJSON(p2)) + "]"
+				} else if j.twin != "" {
 					acts = "[" + string(mustJSON(presetAction(j.twin))) + "," + string(j.tc.Action) + "]"
 				}
 				aj = test.JSONReplace(j.assets, []string{"flows", fmt.Sprintf("[%d]", flowIndex), "nodes", "[0]", "actions"}, []byte(acts))
